@@ -792,6 +792,30 @@ pub fn text_grid_case(r: &mut Rng, idx: u64) -> Vec<u8> {
     control_around(&body, 1, 2, 3, 4)
 }
 
+/// Lead grid: every attribute kind x a small leading 16-bit value (0..=20, where result codes,
+/// error types, message types and proxy types live) x every payload length 0..=10. Decoders that
+/// look at a leading code before they know how much payload there is meet every combination.
+pub const LEAD_GRID: u64 = 40 * 21 * 11;
+pub fn lead_grid_case(r: &mut Rng, idx: u64) -> Vec<u8> {
+    let k = (idx % 40) as usize;
+    let lead = ((idx / 40) % 21) as u16;
+    let len = ((idx / 840) % 11) as usize;
+    let attr = if k < 39 { ATTRS[k].0 } else { 20 };
+    let mut payload = valid_payload(r, attr, len);
+    if len >= 2 {
+        payload[0] = (lead >> 8) as u8;
+        payload[1] = lead as u8;
+    } else if len == 1 {
+        payload[0] = lead as u8;
+    }
+    let mut body = message_type_record(MESSAGE_TYPES[(idx % 14) as usize].0);
+    body.extend_from_slice(&raw_record(attr, false, 0, &payload, true));
+    if idx % 4 == 0 {
+        body.extend_from_slice(&raw_record(9, false, 0, &[0x12, 0x34], true));
+    }
+    control_around(&body, 1, 2, 3, 4)
+}
+
 /// Dictionary grid (G-dict): as `vendor_grid`, but the enterprise numbers, attribute types and
 /// payload lengths are extended by the integer literals found in the source under test (and their
 /// neighbours), so that a table keyed on (vendor, attribute, length) is met whatever constants it
